@@ -19,7 +19,7 @@ import (
 	"time"
 )
 
-var placeholderRe = regexp.MustCompile(`\$(str|int|bool|itoa)\(`)
+var placeholderRe = regexp.MustCompile(`\$(str|int|bool|itoa|real)\(`)
 
 type replayTerm struct {
 	Kind string
@@ -136,6 +136,8 @@ func (P *Program) tryReplay(r *oblResult, dir string) (string, bool) {
 			lit = strconv.Quote(smtIntToGo(v))
 		case "bool":
 			lit = v
+		case "real":
+			lit = smtRealToGo(v)
 		}
 		inputs = append(inputs, ph.Expr+" = "+lit)
 		b.WriteString(lit)
@@ -270,4 +272,87 @@ func smtStringToGo(v string) string {
 		}
 		return string(rune(n))
 	})
+}
+
+// smtRealToGo renders an SMT real value (1.0, (- 1.5), (/ 1.0 3.0), ...) as a Go float64 literal.
+func smtRealToGo(v string) string {
+	var eval func(t string) (float64, bool)
+	eval = func(t string) (float64, bool) {
+		t = strings.TrimSpace(t)
+		if strings.HasPrefix(t, "(") {
+			parts := splitSexp(t[1 : len(t)-1])
+			if len(parts) == 2 && parts[0] == "-" {
+				x, ok := eval(parts[1])
+				return -x, ok
+			}
+			if len(parts) == 3 && parts[0] == "/" {
+				a, ok1 := eval(parts[1])
+				b, ok2 := eval(parts[2])
+				if ok1 && ok2 && b != 0 {
+					return a / b, true
+				}
+			}
+			return 0, false
+		}
+		t = strings.TrimSuffix(t, "?")
+		f, err := strconv.ParseFloat(t, 64)
+		return f, err == nil
+	}
+	f, ok := eval(v)
+	if !ok {
+		return "0.0"
+	}
+	return strconv.FormatFloat(f, 'g', -1, 64)
+}
+
+// runWitnesses replays the committed witnesses of known findings in one test binary per package.
+// Returns, per obligation name, whether its witness still fails on the current tree (defect present).
+func (P *Program) runWitnesses(entries []exceptionEntry, dir string) (map[string]bool, string) {
+	res := map[string]bool{}
+	var body strings.Builder
+	names := map[string]string{}
+	n := 0
+	for _, e := range entries {
+		if e.Witness == "" {
+			continue
+		}
+		data, err := os.ReadFile(filepath.Join(P.verif, e.Witness))
+		if err != nil {
+			continue
+		}
+		n++
+		tn := fmt.Sprintf("TestVerifWitness%d", n)
+		names[tn] = e.Obligation
+		fmt.Fprintf(&body, "func %s(t *testing.T) {\n%s\n}\n\n", tn, string(data))
+	}
+	if n == 0 {
+		return res, ""
+	}
+	src := "package yqlib\n\nimport (\n\t\"testing\"\n\t\"fmt\"\n\t\"math/big\"\n\t\"strings\"\n\t\"os\"\n\t\"bytes\"\n\t\"container/list\"\n)\n\nvar _ = fmt.Sprint\nvar _ = big.NewInt\nvar _ = strings.Contains\nvar _ = os.Getenv\nvar _ = bytes.NewBuffer\nvar _ = list.New\n\n" + body.String()
+	testFile := filepath.Join(dir, "zz_verif_witness_test.go")
+	os.WriteFile(testFile, []byte(src), 0o644)
+	target := filepath.Join(P.repo, "pkg/yqlib", "zz_verif_witness_test.go")
+	ovData, _ := json.Marshal(map[string]map[string]string{"Replace": {target: testFile}})
+	ovFile := filepath.Join(dir, "overlay_witness.json")
+	os.WriteFile(ovFile, ovData, 0o644)
+	ctx, cancel := context.WithTimeout(context.Background(), 300*time.Second)
+	defer cancel()
+	cmd := exec.CommandContext(ctx, "go", "test", "-overlay", ovFile, "-vet=off", "-count=1", "-timeout", "120s", "-v", "-run", "^TestVerifWitness", "./pkg/yqlib")
+	cmd.Dir = P.repo
+	cmd.Env = append(os.Environ(), "GOFLAGS=-mod=mod", "GOPROXY=off", "GOSUMDB=off", "GOTOOLCHAIN=local")
+	var out bytes.Buffer
+	cmd.Stdout = &out
+	cmd.Stderr = &out
+	_ = cmd.Run()
+	o := out.String()
+	for tn, obl := range names {
+		if strings.Contains(o, "--- FAIL: "+tn+" ") {
+			res[obl] = true
+		} else if strings.Contains(o, "--- PASS: "+tn+" ") {
+			res[obl] = false
+		} else if strings.Contains(o, "panic:") && strings.Contains(o, tn) {
+			res[obl] = true
+		}
+	}
+	return res, o
 }
